@@ -11,7 +11,7 @@ def scenario_cases(seed, tier):
     """(name, case, preexisting {relative final name: bytes}) - {plain, gzip, xz} x {single, rotations, onto existing, destroy +- buffered}"""
     out = []
     idx = 0
-    shapes = ['single', 'rot3', 'onto_existing', 'onto_current', 'empty_rotation', 'destroy_buffered', 'destroy_clean']
+    shapes = ['single', 'rot3', 'onto_existing', 'onto_current', 'empty_rotation', 'destroy_buffered', 'destroy_clean', 'part_unusable']
     nvar = 1 if tier == 'quick' else 4
     for var in range(nvar):
         for comp in ('none', 'gzip', 'xz'):
@@ -44,6 +44,11 @@ def scenario_cases(seed, tier):
                 elif shape == 'empty_rotation':
                     # an output that is opened and closed again without receiving a block (e.g. timed rotation, no traffic)
                     ops += [{'op': 'rotate', 'id': 'o1', 'export': True}, {'op': 'rotate', 'id': 'o2', 'export': False}] + recs(3) + [{'op': 'rotate', 'id': 'o3', 'export': True}]
+                elif shape == 'part_unusable':
+                    # a destination whose final name could be created but whose '<name><suffix>.part' cannot (name 5 bytes short of the
+                    # file system's limit / a directory in the way): the rotation must fail; it must never write to the final name instead
+                    ops += [{'op': 'rotate_bad', 'id': 'v1', 'export': True, 'how': 'longname' if idx % 2 else 'partdir'},
+                            {'op': 'rotate', 'id': 'o2', 'export': False}] + recs(3) + [{'op': 'wb'}]
                 elif shape == 'destroy_buffered':
                     ops += [{'op': 'wb'}] + recs(2)
                 elif shape == 'destroy_clean':
@@ -97,7 +102,7 @@ def final_files(d, case):
     """{file name: bytes} of everything in d that belongs to the case and is not a .part / harness file"""
     out = {}
     for f in os.listdir(d):
-        if f.startswith('_') or not f.startswith(case['id'] + '_'):
+        if f.startswith('_') or not f.startswith(case['id'] + '_') or os.path.isdir(os.path.join(d, f)):
             continue
         with open(os.path.join(d, f), 'rb') as fh:
             out[f] = fh.read()
